@@ -517,6 +517,61 @@ def inline_self_aliases(fn):
     return new, alias
 
 
+def inline_attr_chain_aliases(fn):
+    """copy of `fn` in which every local bound exactly once to a pure attribute chain rooted at self
+    (`execute = self.dbConn.execute`, `q = self._queue`) and never rebound is replaced by that chain, provided no
+    attribute of self that the chain goes through is assigned anywhere in fn"""
+    import copy
+
+    def chain(e):
+        parts = []
+        while isinstance(e, ast.Attribute):
+            parts.append(e.attr)
+            e = e.value
+        if isinstance(e, ast.Name) and e.id == "self" and parts:
+            return list(reversed(parts))
+        return None
+    stores, binds = {}, {}
+    for n in ast.walk(fn):
+        tgts = []
+        if isinstance(n, ast.Assign):
+            tgts = n.targets
+        elif isinstance(n, (ast.AugAssign, ast.AnnAssign, ast.For, ast.comprehension)):
+            tgts = [n.target]
+        elif isinstance(n, ast.With):
+            tgts = [i.optional_vars for i in n.items if i.optional_vars is not None]
+        elif isinstance(n, ast.ExceptHandler) and n.name:
+            stores[n.name] = stores.get(n.name, 0) + 1
+        for t in tgts:
+            for x in ast.walk(t):
+                if isinstance(x, ast.Name):
+                    stores[x.id] = stores.get(x.id, 0) + 1
+        if isinstance(n, ast.Assign) and len(n.targets) == 1 and isinstance(n.targets[0], ast.Name) and chain(n.value) is not None:
+            binds[n.targets[0].id] = n
+    rebound = {t.attr for n in ast.walk(fn) if isinstance(n, (ast.Assign, ast.AugAssign)) for t in (n.targets if isinstance(n, ast.Assign) else [n.target])
+               if isinstance(t, ast.Attribute) and isinstance(t.value, ast.Name) and t.value.id == "self"}
+    params = {a.arg for a in fn.args.args + fn.args.kwonlyargs}
+    alias = {name: st.value for name, st in binds.items() if stores.get(name) == 1 and name not in params and chain(st.value)[0] not in rebound}
+    if not alias:
+        return fn
+    new = copy.deepcopy(fn)
+    drop = {(st.lineno, st.col_offset) for name, st in binds.items() if name in alias}
+
+    class T(ast.NodeTransformer):
+        def visit_Name(self, node):
+            if node.id in alias and isinstance(node.ctx, (ast.Load, ast.Del)):
+                return ast.copy_location(copy.deepcopy(alias[node.id]), node)
+            return node
+
+        def visit_Assign(self, node):
+            if (node.lineno, node.col_offset) in drop and len(node.targets) == 1 and isinstance(node.targets[0], ast.Name) and node.targets[0].id in alias:
+                return ast.copy_location(ast.Pass(), node)
+            return self.generic_visit(node)
+    new = T().visit(new)
+    ast.fix_missing_locations(new)
+    return new
+
+
 def inline_arith_temps(fn, keep=()):
     """copy of `fn` in which locals bound exactly once to a purely arithmetic expression over names and constants
     (`end = offset + 3 + size`) are replaced by that expression at their uses, provided no operand is rebound between the
@@ -596,11 +651,10 @@ def inline_private_calls(repo, cls, fn, depth=2, only=None, _seen=(), helper_tra
         if helper_transform is not None:
             h = helper_transform(h)
         a = h.args
-        if a.vararg or a.kwarg or a.kwonlyargs or any(isinstance(d, ast.Name) and d.id in ("staticmethod", "classmethod", "property") for d in h.decorator_list):
-            if any(isinstance(d, ast.Name) and d.id in ("staticmethod", "classmethod") for d in h.decorator_list) and not (a.vararg or a.kwarg or a.kwonlyargs):
-                pass
-            else:
-                return None
+        if a.kwarg or a.kwonlyargs or any(isinstance(d, ast.Name) and d.id == "property" for d in h.decorator_list):
+            return None
+        if a.vararg and any(isinstance(x, ast.Name) and x.id == a.vararg.arg and isinstance(x.ctx, ast.Store) for st in h.body for x in ast.walk(st)):
+            return None      # the helper rebinds its *args
         if any(isinstance(x, (ast.Yield, ast.YieldFrom, ast.FunctionDef, ast.Lambda, ast.Global, ast.Nonlocal)) for st in h.body for x in ast.walk(st)):
             return None
         rets = [x for st in h.body for x in ast.walk(st) if isinstance(x, ast.Return)]
@@ -622,8 +676,25 @@ def inline_private_calls(repo, cls, fn, depth=2, only=None, _seen=(), helper_tra
             recv_param = params[0] if params else None
             params = params[1:]
         defaults = dict(zip(params[len(params) - len(h.args.defaults):], h.args.defaults))
-        given = dict(zip(params, call.args))
-        if len(call.args) > len(params):
+        plain = list(call.args)
+        star = None
+        if h.args.vararg is not None:
+            # *args: the positional arguments beyond the named parameters, as a tuple; a single `*rest` passed on stands
+            # for itself
+            if any(isinstance(x, ast.Starred) for x in plain[:len(params)]):
+                return None
+            extra = plain[len(params):]
+            plain = plain[:len(params)]
+            if len(extra) == 1 and isinstance(extra[0], ast.Starred):
+                star = ast.Call(func=ast.Name(id="tuple", ctx=ast.Load()), args=[copy.deepcopy(extra[0].value)], keywords=[])
+            elif any(isinstance(x, ast.Starred) for x in extra):
+                return None
+            else:
+                star = ast.Tuple(elts=[copy.deepcopy(x) for x in extra], ctx=ast.Load())
+        elif any(isinstance(x, ast.Starred) for x in plain):
+            return None
+        given = dict(zip(params, plain))
+        if len(plain) > len(params):
             return None
         for kw in call.keywords:
             if kw.arg is None or kw.arg not in params or kw.arg in given:
@@ -649,6 +720,8 @@ def inline_private_calls(repo, cls, fn, depth=2, only=None, _seen=(), helper_tra
                 ren[p_] = copy.deepcopy(v)
                 continue
             pre.append(ast.Assign(targets=[ast.Name(id=ren[p_], ctx=ast.Store())], value=copy.deepcopy(v)))
+        if star is not None:
+            ren[h.args.vararg.arg] = star
         return pre, ren
 
     class Ren(ast.NodeTransformer):
